@@ -1497,9 +1497,9 @@ def _check(case, obs, t0=0):
                     raise Violation("refusal-missing", f"{what}: rail in{i} rejected, the reply must be its refusal {want!r}, got {rep!r}"[:600], {"turn": t})
         else:
             if "rewrite" in verdicts:
-                j = verdicts.index("rewrite")
-                if j < len(verdicts) - 1:
-                    labels.append("rewrite-then-" + ("rewrite" if "rewrite" in verdicts[j + 1:] else "accept"))
+                jr = verdicts.index("rewrite")  # (not `j`: that is the position of the turn in its conversation)
+                if jr < len(verdicts) - 1:
+                    labels.append("rewrite-then-" + ("rewrite" if "rewrite" in verdicts[jr + 1:] else "accept"))
                     nt = True
                 else:
                     labels.append("rewrite-last")
